@@ -1237,6 +1237,64 @@ fn main() {
         }
     }
 
+    // ---- phase 2b: many distinct keys in one flush window ------------------------------------
+    // N keys (around powers of two, up to a few thousand), each merged once or twice, one flush
+    // (directly and through a WorkerSink): one aggregate per key, sums = inputs
+    let sizes: &[usize] = tier.pick(&[63, 64, 65, 1023, 1024, 1025, 1500], &[63, 64, 65, 255, 256, 257, 1023, 1024, 1025, 4095, 4096, 4097, 10_000]);
+    let mut many_key_runs = 0u64;
+    for &n in sizes {
+        for via_worker in [false, true] {
+            let t = test_entry_sink();
+            let mut tap = Tap::new(t.inspector);
+            let mk = |i: usize, v: u64| Rec { name: format!("key-{i}"), total: v, obs: v, last: v };
+            if via_worker {
+                let w = WorkerSink::new(KeyedAggregator::<Rec, _>::new(t.sink), NEVER);
+                for i in 0..n {
+                    w.send(mk(i, 1).close());
+                    if i % 3 == 0 {
+                        w.send(mk(i, 10).close());
+                    }
+                }
+                futures::executor::block_on(w.flush());
+            } else {
+                let mut agg = KeyedAggregator::<Rec>::new(t.sink);
+                for i in 0..n {
+                    agg.merge(mk(i, 1).close());
+                    if i % 3 == 0 {
+                        agg.merge(mk(i, 10).close());
+                    }
+                }
+                agg.flush();
+            }
+            many_key_runs += 1;
+            let got = tap.take();
+            let mut by_key: BTreeMap<String, (u64, u64)> = BTreeMap::new();
+            for e in &got {
+                let name = e.values.get("name").cloned().unwrap_or_default();
+                let total = e.metrics.get("total").map(|m| m.as_u64()).unwrap_or(u64::MAX);
+                let slot = by_key.entry(name).or_insert((0, 0));
+                slot.0 += 1;
+                slot.1 += total;
+            }
+            let how = if via_worker { "WorkerSink over KeyedAggregator" } else { "KeyedAggregator" };
+            let replay = json!({"keys": n, "inputs": "key-i merged with total 1, and again with total 10 when i % 3 == 0", "sink": how, "aggregates_emitted": got.len()});
+            if got.len() != n {
+                all.v.add("many-keys:aggregate-count", format!("{how}: {n} distinct keys merged before one flush, {} aggregates emitted", got.len()), replay.clone());
+            }
+            for i in 0..n {
+                let want = if i % 3 == 0 { 11 } else { 1 };
+                match by_key.get(&format!("key-{i}")) {
+                    Some((1, t)) if *t == want => {}
+                    other => {
+                        all.v.add("many-keys:input-not-in-exactly-one-aggregate", format!("{how}: key-{i} of {n}: expected one aggregate with total {want}, got {other:?}"), replay.clone());
+                        break;
+                    }
+                }
+            }
+        }
+    }
+    all.histories += many_key_runs;
+
     let t_phase2 = rep.start.elapsed().as_secs_f64();
     // ---- phase 3: WorkerSink driven sequentially; one long-lived pair of instances per thread ---
     let wlen: u32 = tier.pick(4, 5);
